@@ -25,7 +25,9 @@ still passes. Think of plausible maintainer mistakes: an off-by-one, a wrong ope
 that is too permissive, two sites that each look fine alone. IMPORTANT: each change must need something specific to
 manifest - an unusual input, a particular trip count or branch outcome, a multi-step sequence, a particular
 configuration or shape - NOT something that ordinary use or the simplest example would expose at once. The two changes
-should break the property through different mechanisms / code sites.
+should break the property through different mechanisms / code sites. Prefer code sites and triggering inputs that a
+checker exploring typical small programs would be unlikely to reach: secondary branches, helper functions, rarely used
+options or element types, interactions between two passes, particular nesting or ordering of operations.
 
 Environment facts:
  * Python is /venv/bin/python (3.12). No network. Run things from inside the worktree so that `import snaxc` picks up
